@@ -145,3 +145,23 @@ class Walker:
 def walk(fn, sigma, watch, classify=None):
     w = Walker(fn, sigma, watch, classify)
     return w.run()
+
+
+def decision_table(fn, domains, classify, watch, decide=None):
+    """enumerate all assignments of `domains` ({name: [variants]}) and return
+    {tuple(sorted sigma items): set(event sequences)} plus the number of tracked switches seen"""
+    import itertools
+    names = sorted(domains)
+    table = {}
+    for combo in itertools.product(*[domains[n] for n in names]):
+        sigma = dict(zip(names, combo))
+        w = Walker(fn, sigma, watch, classify, decide=decide)
+        table[tuple(combo)] = w.run()
+    seen = {n: 0 for n in names}
+    for bid in fn.order:
+        t = fn.blocks[bid]["term"]
+        if t["k"] == "switch" and "discr_of" in t:
+            c = classify(fn, bid, t)
+            if c in seen:
+                seen[c] += 1
+    return names, table, seen
